@@ -58,6 +58,10 @@ type c38World struct {
 	nconn       int
 	blocked     bool
 	overflowed  bool
+	readTimeout time.Duration
+	throttle    time.Time // the worker sleeps until then after a timeout error (zero = not sleeping)
+	ambiguous   bool      // two kinds of timers fired in the same instant: order unknown, no model comparison
+	rdTimeouts  int
 }
 
 func (w *c38World) violate(k, d string) { w.viol = append(w.viol, [2]string{k, d}) }
@@ -74,10 +78,10 @@ func c38Class(err error) string {
 	return "connerr"
 }
 
-func newC38World(m int) *c38World {
-	w := &c38World{m: m}
+func newC38World(m int, readTimeout time.Duration) *c38World {
+	w := &c38World{m: m, readTimeout: readTimeout}
 	pc := &fasthttp.PipelineClient{Addr: "pipe.test:80", MaxConns: 1, MaxPendingRequests: m,
-		MaxIdleConnDuration: 1000 * time.Second, Logger: nopLogger{}}
+		MaxIdleConnDuration: 1000 * time.Second, Logger: nopLogger{}, ReadTimeout: readTimeout}
 	pc.Dial = func(string) (net.Conn, error) {
 		g := make(chan bool)
 		w.mu.Lock()
@@ -110,7 +114,11 @@ func (w *c38World) tap(c *memConn) {
 		t := r.qInt("t", -1)
 		w.mu.Lock()
 		w.seenAll = append(w.seenAll, t)
-		w.seenStep = append(w.seenStep, t)
+		// whether a request written after the server closed the connection still reaches it is a race between the
+		// writer's flush and the worker closing the connection after the reader's EOF: not part of the comparison
+		if !(w.cur == c && w.curDead) {
+			w.seenStep = append(w.seenStep, t)
+		}
 		if w.cur == c {
 			w.outstanding = append(w.outstanding, t)
 		}
@@ -126,6 +134,14 @@ func (w *c38World) startCall(hasDL bool, timeout time.Duration) {
 	w.calls = append(w.calls, c)
 	pc := w.pc
 	go func() {
+		defer func() {
+			if e := recover(); e != nil {
+				w.mu.Lock()
+				w.violate("impl-panic", fmt.Sprintf("call %d: panic inside fasthttp: %v", c.id, e))
+				c.done, c.reported = true, true
+				w.mu.Unlock()
+			}
+		}()
 		req := fasthttp.AcquireRequest()
 		resp := fasthttp.AcquireResponse()
 		req.SetRequestURI(fmt.Sprintf("http://pipe.test/?t=%d", c.id))
@@ -198,18 +214,38 @@ func (w *c38World) apply(code byte, n int) bool {
 		w.ops = append(w.ops, []byte{code})
 		g <- code == 'D'
 	case 'T':
-		dl, ok := w.nextDeadline()
-		if !ok {
+		// virtual time jumps to the next timer: a caller's deadline, the reader's ReadTimeout, the end of the
+		// worker's 1s pause after a timeout error
+		var next time.Time
+		have := false
+		consider := func(t time.Time, ok bool) {
+			if ok && (!have || t.Before(next)) {
+				next, have = t, true
+			}
+		}
+		consider(w.nextDeadline())
+		w.mu.Lock()
+		cur, dead := w.cur, w.curDead
+		w.mu.Unlock()
+		var rdl time.Time
+		rdOK := false
+		if cur != nil && !dead {
+			rdl, rdOK = cur.pendingReadDeadline()
+		}
+		consider(rdl, rdOK)
+		consider(w.throttle, !w.throttle.IsZero())
+		if !have {
 			return false
 		}
-		if d := time.Until(dl); d > 0 {
+		if d := time.Until(next); d > 0 {
 			time.Sleep(d)
 		}
 		time.Sleep(time.Millisecond)
-		op := []byte{'E'}
+		now := time.Now()
+		kinds := 0
 		var exp []*c38Call
 		for _, c := range w.calls {
-			if c.hasDL && !c.expEmitted && !c.dl.After(time.Now()) {
+			if c.hasDL && !c.expEmitted && !c.dl.After(now) {
 				exp = append(exp, c)
 			}
 		}
@@ -219,11 +255,35 @@ func (w *c38World) apply(code byte, n int) bool {
 			}
 			return exp[i].id < exp[j].id
 		})
-		for _, c := range exp {
-			c.expEmitted = true
-			op = append(op, byte(c.id))
+		if len(exp) > 0 {
+			kinds++
+			op := []byte{'E'}
+			for _, c := range exp {
+				c.expEmitted = true
+				op = append(op, byte(c.id))
+			}
+			w.ops = append(w.ops, op)
 		}
-		w.ops = append(w.ops, op)
+		if rdOK && !rdl.After(now) {
+			kinds++
+			w.rdTimeouts++
+			w.throttle = rdl.Add(time.Second)
+			w.mu.Lock()
+			w.curDead = true // the client has dropped this connection
+			w.mu.Unlock()
+			if kinds == 1 {
+				w.ops = append(w.ops, []byte{'Y'})
+			}
+		} else if !w.throttle.IsZero() && !w.throttle.After(now) {
+			kinds++
+			w.throttle = time.Time{}
+			if kinds == 1 {
+				w.ops = append(w.ops, []byte{'W'})
+			}
+		}
+		if kinds != 1 {
+			w.ambiguous = true
+		}
 	default:
 		return false
 	}
@@ -348,9 +408,13 @@ func c38Pipe(a [][]byte) *Case {
 		return nil
 	}
 	m := int(a[0][0])%3 + 1
+	var rto time.Duration
+	if len(a[0]) > 1 && a[0][1]%2 == 1 {
+		rto = 7 * time.Second
+	}
 	var w *c38World
 	bub := inBubble(func() {
-		w = newC38World(m)
+		w = newC38World(m, rto)
 		for i := 0; i+1 < len(a[1]); i += 2 {
 			w.apply(a[1][i], int(a[1][i+1]))
 		}
@@ -358,26 +422,38 @@ func c38Pipe(a [][]byte) *Case {
 	})
 	impl := strings.Join(w.obs, ";")
 	line := Line("pipeline", append([][]byte{{byte(m)}}, w.ops...)...)
-	return &Case{Lines: []string{line}, Impl: impl, Nontrivial: w.blocked || w.overflowed, Tags: []string{"pipe", fmt.Sprintf("m%d", m)},
+	nontrivial := w.blocked || w.overflowed || w.rdTimeouts > 0
+	viol, ops, obs := w.viol, w.ops, w.obs
+	lines := []string{line}
+	tags := []string{"pipe", fmt.Sprintf("m%d", m)}
+	if w.rdTimeouts > 0 {
+		tags = append(tags, "read-timeout")
+	}
+	if w.ambiguous {
+		lines = nil // simultaneous timers of two kinds: the monitor still judges the run
+		tags = append(tags, "ambiguous-timers")
+	}
+	w = nil // the world (client, connections) must be collectable
+	return &Case{Lines: lines, Impl: impl, Nontrivial: nontrivial, Tags: tags,
 		Judge: func(r []string) Verdict {
-			if len(w.viol) > 0 {
-				return Verdict{VSpec, w.viol[0][0], w.viol[0][1] + " | trace: " + impl}
+			if len(viol) > 0 {
+				return Verdict{VSpec, viol[0][0], viol[0][1] + " | trace: " + impl}
 			}
 			if bub != "" {
 				return Verdict{VSpec, "goroutine-stuck", bub + " | trace: " + impl}
 			}
-			if r[0] == "no-driver" {
+			if len(r) == 0 || r[0] == "no-driver" {
 				return Ok()
 			}
 			if r[0] != impl {
 				mo := strings.Split(r[0], ";")
-				for i := range w.obs {
-					if i >= len(mo) || mo[i] != w.obs[i] {
+				for i := range obs {
+					if i >= len(mo) || mo[i] != obs[i] {
 						mm := "<none>"
 						if i < len(mo) {
 							mm = mo[i]
 						}
-						return Verdict{VCorr, "pipeline-step", fmt.Sprintf("after op %d (%q): impl %q model %q | impl trace: %s | model: %s", i, w.ops[i], w.obs[i], mm, impl, r[0])}
+						return Verdict{VCorr, "pipeline-step", fmt.Sprintf("after op %d (%q): impl %q model %q | impl trace: %s | model: %s", i, ops[i], obs[i], mm, impl, r[0])}
 					}
 				}
 				return Verdict{VCorr, "pipeline-step", fmt.Sprintf("impl %q model %q", impl, r[0])}
@@ -464,6 +540,9 @@ func c38Storm(a [][]byte) *Case {
 		}
 		pc := &fasthttp.PipelineClient{Addr: "pipe.test:80", MaxConns: maxConns, MaxPendingRequests: m,
 			MaxIdleConnDuration: 1000 * time.Second, Logger: nopLogger{}}
+		if len(a[0]) > 2 && a[0][2]%2 == 1 {
+			pc.ReadTimeout = 5 * time.Second // slow answers (7s, 45s, stalls) now make the reader give the connection up
+		}
 		pc.Dial = func(string) (net.Conn, error) {
 			mu.Lock()
 			refuse := !calm && dialRand.Chance(25)
@@ -535,7 +614,7 @@ func c38Storm(a [][]byte) *Case {
 					if !dl.IsZero() && ret.After(dl) {
 						violate("deadline-late", fmt.Sprintf("call %d returned %s %v after its deadline", cid, cls, ret.Sub(dl)))
 					}
-					if cls == "timeout" && dl.IsZero() {
+					if cls == "timeout" && dl.IsZero() && pc.ReadTimeout == 0 {
 						violate("bad-result", fmt.Sprintf("Do call %d without deadline returned ErrTimeout", cid))
 					}
 					if cls == "ok" {
@@ -599,7 +678,7 @@ var c38Codes = []byte("NNNLLLLLPPPPPXDDDFTTT")
 func init() {
 	Register(&Prop{
 		ID: "C38",
-		Rule: "pipe: random sequences of 4..30 gated ops (Do / DoTimeout 5s|15s|40s / server answers the oldest request / server closes / dial ok / dial fail / virtual time jumps to the next deadline) " +
+		Rule: "pipe: random sequences of 4..30 gated ops (Do / DoTimeout 5s|15s|40s / server answers the oldest request / server closes / dial ok / dial fail / virtual time jumps to the next timer: a deadline, the reader's ReadTimeout (7s in a third of the cases), the end of the worker's pause) " +
 			"on a real PipelineClient, MaxConns 1, MaxPendingRequests 1..3, followed by a teardown that answers everything; " +
 			"storm: 3..7 concurrent callers (Do, DoTimeout, DoDeadline) against autonomous servers that answer at once, slowly, in two pieces, stall, close, and dials that are refused, MaxConns 1..2; " +
 			"non-trivial = chW was full or a call overflowed / more than 4 calls; distinct = distinct input",
@@ -631,10 +710,10 @@ func init() {
 				for j := 0; j < m; j++ {
 					ops = append(ops, c38Codes[r.Intn(len(c38Codes))], byte(r.Intn(6)))
 				}
-				emit("pipe", []byte{byte(r.Intn(3))}, ops)
+				emit("pipe", []byte{byte(r.Intn(3)), byte(r.Intn(3))}, ops)
 			}
 			for i := 0; i < nStorm; i++ {
-				emit("storm", []byte{byte(r.Intn(3)), byte(r.Intn(2))}, r.Bytes(4, nil))
+				emit("storm", []byte{byte(r.Intn(3)), byte(r.Intn(2)), byte(r.Intn(2))}, r.Bytes(4, nil))
 			}
 		},
 	})
